@@ -14,7 +14,7 @@ import editmachine as E
 
 
 def _one(args):
-    seed, idx, seg_p, nsteps = args
+    seed, idx, seg_p, nsteps, toggles = args
     holder = {}
 
     class Hook:
@@ -29,7 +29,7 @@ def _one(args):
             return holder["o"].after(*a)
 
     try:
-        scn = E.run_scenario(seed, idx, nsteps=nsteps, seg_p=seg_p, on_step=Hook())
+        scn = E.run_scenario(seed, idx, nsteps=nsteps, seg_p=seg_p, on_step=Hook(), toggles=toggles)
     except Exception as e:  # noqa: BLE001
         import traceback
 
@@ -41,9 +41,9 @@ def _one(args):
     return scn
 
 
-def run_shard(seed, n, seg_p=0.5, nsteps=None, procs=None):
+def run_shard(seed, n, seg_p=0.5, nsteps=None, procs=None, toggles=0.0):
     procs = procs or min(16, os.cpu_count() or 4)
-    args = [(seed, i, seg_p, nsteps) for i in range(n)]
+    args = [(seed, i, seg_p, nsteps, toggles) for i in range(n)]
     with mp.get_context("fork").Pool(procs) as pool:
         return pool.map(_one, args, chunksize=max(1, n // (procs * 4)))
 
@@ -53,10 +53,10 @@ def ops_of(scn):
     return scn["lines"][k:]
 
 
-def run_property(ctx, pid, n_quick=400, n_thorough=6000, seg_p=0.5, fields=None):
+def run_property(ctx, pid, n_quick=400, n_thorough=6000, seg_p=0.5, fields=None, toggles=0.0):
     """fields: the observation fields whose divergence concerns this property (None = all)"""
     n = n_quick if ctx.quick() else n_thorough
-    scns = run_shard(ctx.seed, n, seg_p=seg_p)
+    scns = run_shard(ctx.seed, n, seg_p=seg_p, toggles=toggles)
     errors = [s for s in scns if "error" in s]
     scns = [s for s in scns if "error" not in s]
     lines = []
@@ -89,10 +89,25 @@ def run_property(ctx, pid, n_quick=400, n_thorough=6000, seg_p=0.5, fields=None)
                 divergences.append({"scenario": {"seed": s["seed"], "index": s["index"], "cfg": s["cfg"]}, "ops_until_divergence": ops[:d["step"]],
                                     "fields": d["fields"], "impl": d.get("impl"), "model": d.get("model")})
         for prop, what, line in s["violations"]:
+            sig = None
             if prop == pid:
-                violations.append({"what": what, "input": {"scenario": {"seed": s["seed"], "index": s["index"], "seg_p": seg_p}, "cfg": s["cfg"],
+                sig = "%s:%s" % (pid, line.split()[0] if line else "init")
+            elif pid == "C10" and prop in ("C04", "C05", "C06"):
+                # ids recomputed in mid-session (enable_features(['track_id'/'lineage_id']) on an enabled
+                # feature renumbers them) and a later undo / redo re-applies ids of the old numbering
+                k = ops.index(line) if line in ops else len(ops)
+                ren = [i for i, o in enumerate(ops[:k + 1]) if o.startswith("EN ") and set(o.split()[1].split(",")) & {"2", "3"}
+                       and s["obs"][i + 1]["ret"] == 0]
+                undone = [i for i, o in enumerate(ops[:k + 1]) if o in ("U", "R") and ren and i > ren[0]]
+                if ren and undone:
+                    sig = "C10:ids-recomputed-then-undo"
+                    what = "track/lineage ids were recomputed by `%s` and a later undo/redo restored ids of the old numbering: %s" % (ops[ren[0]], what)
+                else:
+                    sig = "C10:%s-after-switch" % prop
+            if sig is not None:
+                violations.append({"what": what, "input": {"scenario": {"seed": s["seed"], "index": s["index"], "seg_p": seg_p, "toggles": toggles}, "cfg": s["cfg"],
                                                            "init": s["lines"][:len(s["lines"]) - len(ops)], "ops": ops, "failing_op": line},
-                                   "signature": "%s:%s" % (pid, line.split()[0] if line else "init")})
+                                   "signature": sig})
         if len(samples) < 3 and len(ops) >= 5:
             samples.append({"cfg": s["cfg"], "ops": ops[:12], "returns": [o["ret"] for o in s["obs"][1:13]]})
     refused = sum(v for k, v in rets.items() if int(k.split(":")[1]) >= 10)
@@ -118,6 +133,6 @@ def replay(ctx, payload):
     sc = inp.get("scenario")
     if not sc:
         return {"error": "replay file has no scenario"}
-    r = _one((sc["seed"], sc["index"], sc.get("seg_p", 0.5), None))
+    r = _one((sc["seed"], sc["index"], sc.get("seg_p", 0.5), None, sc.get("toggles", 0.0)))
     mine = [v for v in r.get("violations", []) if v[0] == ctx.pid]
     return {"violation": bool(mine), "violations": mine[:5], "ops": ops_of(r) if "lines" in r else None}
